@@ -58,6 +58,14 @@ def truthy : Option Chain → Bool
   | some (_ :: _) => true
   | _ => false
 
+/-- `cell_resume_at` of one cell: what `block_container_layout` returned when it placed something
+(`new_cell is not None`); when nothing of the cell fits (`new_cell is None`, an empty copy is laid out
+instead) the cell keeps the position it was given, `cell_skip_stack or {0: None}` (repair a7ed065: it
+used to be `{0: None}`, restarting a continued cell from its first line). -/
+def cellResume (placed : Bool) (skip result : Option Chain) : Option Chain :=
+  if placed then result
+  else if truthy skip then skip else some [0]
+
 /-- The bindings `resume_at[index_row][index_cell] = cell_resume_at` made by the cell loop, from the
 `cell_resume_at` of every cell in row order. -/
 def resumeBindings : Nat → List (Option Chain) → RowSkip
